@@ -30,6 +30,14 @@ std::string rand_text(Rng &r, size_t maxlen) {
   return s;
 }
 
+// report texts around the daemon's REPORTMAX (10000): the daemon cuts them there and, for a message past its lifetime, appends its own
+// sentence behind the cut
+std::string long_text(Rng &r) {
+  size_t n = (size_t)r.pick(std::vector<int>{9900, 9925, 9929, 9930, 9935, 9960, 9990, 9997, 9998, 9999, 10000, 10001, 10050, 12000, 30000});
+  std::string s; while (s.size() < n) { s += "line " + std::to_string(s.size()) + " of a very long report"; s += r.chance(0.8) ? "\n" : " "; } s.resize(n); if (r.chance(0.5)) s.back() = '\n';
+  return s;
+}
+
 Json oracle_list(std::initializer_list<const char *> l) { Json a = Json::arr(); for (auto x : l) a.push(x); return a; }
 
 // ------------------------------------------------------------------------------------------------ C03 / C04 histories
@@ -562,8 +570,8 @@ static bool gen_c14(uint64_t seed, const std::string &tier, uint64_t i, Plan &p)
   std::string dbto = conf.gets("doublebounceto", "postmaster") + "@" + conf.gets("doublebouncehost", "sim.example");
   auto script = [&](const std::string &seen_as, int maxz, bool may_fail) {
     Json sc = Json::obj(); sc.set("op", "script").set("rcpt", seen_as); Json at = Json::arr(); int nz = (int)r.range(0, maxz);
-    for (int y = 0; y < nz; y++) at.push(Json::obj().set("v", "Z").set("text", rand_text(r, 80)).set("lat", (long long)r.below(20)));
-    at.push(Json::obj().set("v", may_fail && r.chance(0.6) ? "D" : "K").set("text", rand_text(r, 300)).set("lat", (long long)r.below(10)));
+    for (int y = 0; y < nz; y++) at.push(Json::obj().set("v", "Z").set("text", r.chance(0.08) ? long_text(r) : rand_text(r, 80)).set("lat", (long long)r.below(20)));
+    at.push(Json::obj().set("v", may_fail && r.chance(0.6) ? "D" : "K").set("text", r.chance(0.05) ? long_text(r) : rand_text(r, 300)).set("lat", (long long)r.below(10)));
     sc.set("attempts", at); p.ops.push(sc);
   };
   std::set<std::string> scripted;
@@ -587,9 +595,9 @@ static bool gen_c14(uint64_t seed, const std::string &tier, uint64_t i, Plan &p)
       else { addr = "n" + std::to_string(rid) + "@novirt.example"; seen = addr; }
       rc.push(addr);
       Json sc = Json::obj(); sc.set("op", "script").set("rcpt", seen); Json at = Json::arr(); int nz = (int)r.below(2);
-      for (int y = 0; y < nz; y++) at.push(Json::obj().set("v", "Z").set("text", rand_text(r, 80)).set("lat", (long long)r.below(20)));
+      for (int y = 0; y < nz; y++) at.push(Json::obj().set("v", "Z").set("text", r.chance(0.08) ? long_text(r) : rand_text(r, 80)).set("lat", (long long)r.below(20)));
       int fin = (int)r.below(10);
-      at.push(Json::obj().set("v", fin < 7 ? "D" : (fin < 9 ? "K" : "Z")).set("text", rand_text(r, 400)).set("lat", (long long)r.below(10)));
+      at.push(Json::obj().set("v", fin < 7 ? "D" : (fin < 9 ? "K" : "Z")).set("text", r.chance(0.08) ? long_text(r) : rand_text(r, 400)).set("lat", (long long)r.below(10)));
       if (fin == 9) at.push(Json::obj().set("v", "D").set("text", rand_text(r, 100)));
       sc.set("attempts", at); p.ops.push(sc);
     }
